@@ -351,7 +351,8 @@ func (d *TCPDialer) tryDial(
 			}
 		}
 		verifPoint("dial.slot.acquired")
-		defer func() { verifPoint("dial.slot.released"); <-concurrencyCh }()
+		defer func() { <-concurrencyCh }()
+		defer verifPoint("dial.slot.released")
 	}
 
 	dialer := net.Dialer{}
